@@ -80,6 +80,35 @@ class Ranger:
         # refinement by path conditions that compare e with constants
         for c in conds:
             ce, v = c[0], c[1]
+            # (a | b | ..) & !(2^k - 1) == 0  (all bits from k up are clear): every operand lies in 0 .. 2^k - 1
+            if ce[0] == "bin" and ce[1] in ("Eq", "Ne") and isinstance(v, int):
+                z, m = (ce[2], ce[3]) if ce[3][0] == "int" and ce[3][1] == 0 else ((ce[3], ce[2]) if ce[2][0] == "int" and ce[2][1] == 0 else (None, None))
+                if z is not None and z[0] == "bin" and z[1] == "BitAnd" and ((ce[1] == "Eq") == bool(v)):
+                    mask, x = (z[2], z[3]) if z[2][0] == "int" else ((z[3], z[2]) if z[3][0] == "int" else (None, None))
+                    if mask is not None:
+                        kbits = None
+                        for w in (8, 16, 32, 64):
+                            mv = mask[1] & ((1 << w) - 1)
+                            low = (1 << w) - mv
+                            if mv and low & (low - 1) == 0 and (mask[1] == mv or mask[1] == mv - (1 << w)):
+                                kbits = low.bit_length() - 1
+                                break
+                        if kbits is not None:
+                            ops_ = []
+
+                            def leaves(y):
+                                if y[0] == "bin" and y[1] == "BitOr":
+                                    leaves(y[2])
+                                    leaves(y[3])
+                                else:
+                                    ops_.append(y)
+                            leaves(x)
+                            if e in ops_ or any(o[0] == "cast" and o[2] == e for o in ops_):
+                                lo, hi = b if b else (None, None)
+                                lo = 0 if lo is None else max(lo, 0)
+                                hi = (1 << kbits) - 1 if hi is None else min(hi, (1 << kbits) - 1)
+                                b = (lo, hi)
+                                continue
             if e[0] == "len" and ce[0] == "isempty" and ce[1] == e[1] and isinstance(v, int):
                 lo, hi = b if b else (0, 64)
                 b = (0, 0) if v == 1 else (max(lo, 1), hi)
